@@ -191,6 +191,11 @@ def cropped(prog, rep, cn):
         bbp = lambda t: match(t, ("call", "*::bounding_box", "_", (P(1, "parent"),))) is not None
         ms = match(m["?size"], ("field", "?r", field_index(prog, RECT, "size")))
         mp = match(m["?parent"], ("call", "*::translated", "_", (P(1, "parent"), ("field", "?r2", field_index(prog, RECT, "top_left")))))
+        if mp is None:      # `Translated::new(parent, offset)` is what `parent.translated(offset)` builds (ext:translated, R03.2)
+            mp = match(m["?parent"], ("call", "*Translated::<'a, T>::new", "_", (P(1, "parent"), ("field", "?r2", field_index(prog, RECT, "top_left")))))
+        if mp is None and m["?parent"][0] == "call" and m["?parent"][1].split("::")[-1] == "new" and "Translated" in m["?parent"][1] and len(m["?parent"][3]) == 2 \
+                and strip_refs(m["?parent"][3][0]) == P(1, "parent") and m["?parent"][3][1][0] == "field" and m["?parent"][3][1][2] == field_index(prog, RECT, "top_left"):
+            mp = {"?r2": m["?parent"][3][1][1]}
         ok = ms is not None and mp is not None and ms["?r"] == mp["?r2"] and isect_of(ms["?r"], lambda t: t == P(2, "area"), bbp)
         why = "offset and size must both come from area.intersection(parent.bounding_box()); found parent=%s size=%s" % (show(m["?parent"], maxd=5), show(m["?size"], maxd=5))
     rep.check(ok, "R03.2", "Cropped::new", why, at=n.span, fn=n.path)
@@ -370,6 +375,48 @@ def zip_rule_everywhere(prog, rep, only_adt=None, rule="R03.6", floor=3):
             raw_stream = any(a == P(3, "colors") or match(a, ("call", "*::into_iter", "_", (P(3, "colors"),))) is not None for a in args)
             rep.check(good, rule, "stream-pairing:" + f.key(), status="refuted" if raw_stream else "undecided", why="the caller's colour stream is paired with the points of %s instead of the caller's `area`: colours land on wrong coordinates when the two differ (undecided = the stream is re-cut by code this rule does not model)" % rect,
                       at=t.get("sp", ""), fn=f.path)
+    # delegated pairing: the zip lives in a helper that is new to the tree and gets `area` and the colour stream from a
+    # fill_contiguous — inside it the stream parameter must be zipped with the points of the area parameter
+    for f in sorted(prog.fns.values(), key=lambda f: f.id):
+        if f.name != "fill_contiguous" or not f.body or f.kind != "assoc_fn":
+            continue
+        impl = prog.impls.get(f.impl) if f.impl else None
+        if not ((impl and impl.get("trait") == DT) or f.d.get("trait_def") == DT):
+            continue
+        if only_adt is not None and not (impl and impl["self_ty"].get("adt") == only_adt):
+            continue
+        org = Origins(f)
+        for bi in sorted(org.cfg.live_blocks()):
+            t = f.body["blocks"][bi]["t"]
+            if not t or t["k"] != "call":
+                continue
+            gs = [g for g in prog.by_path.get((t["f"].get("resolved") or t["f"]).get("path", ""), []) if g.body and g.kind in ("fn", "assoc_fn") and prog.is_new(g)]
+            if len(gs) != 1:
+                continue
+            g = gs[0]
+            args = [strip_refs(a) for a in org.term_args(bi)]
+            ci = [i for i, a in enumerate(args) if a == P(3, "colors") or match(a, ("call", "*::into_iter", "_", (P(3, "colors"),))) is not None]
+            ai = [i for i, a in enumerate(args) if a == P(2, "area")]
+            if len(ci) != 1:
+                continue
+            gorg = Origins(g)
+            for gb in sorted(gorg.cfg.live_blocks()):
+                gt = g.body["blocks"][gb]["t"]
+                if not gt or gt["k"] != "call" or gt["f"].get("name") not in ("zip", "into_pixels"):
+                    continue
+                gargs = [strip_refs(a) for a in gorg.term_args(gb)]
+                pc = ("param", ci[0] + 1)
+                if not any(n_[:2] == pc for a in gargs for n_ in walk(a) if isinstance(n_, tuple) and n_ and n_[0] == "param"):
+                    continue
+                n += 1
+                if gt["f"].get("name") == "zip":
+                    pts = [a for a in gargs if match(a, ("call", "*::points", "_", ("?r",))) is not None]
+                    rect = strip_refs(pts[0][3][0]) if pts else None
+                else:
+                    rect = gargs[1] if len(gargs) > 1 else None
+                good = len(ai) == 1 and rect is not None and rect[0] == "param" and rect[1] == ai[0] + 1
+                rep.check(good, rule, "stream-pairing:" + f.key(), "the caller's colour stream is paired (in helper %s) with the points of %s instead of the caller's `area`" % (g.name, show(rect) if rect else "?"),
+                          at=gt.get("sp", ""), fn=g.path, status="undecided")
     # forwarding sites: a fill_contiguous that hands the caller's colour stream on to another fill_contiguous element by
     # element (into_iter / map only: no skip, take, filter or re-cutting iterator in between) must hand on an area of
     # the caller's size at the caller's row length — `area` itself or `area.translate(..)`.  A clipped / intersected area
